@@ -138,6 +138,8 @@ def cases(draw, tier="quick"):
     if tgt == "ZA":
         a = round(draw(st.floats(1.0, 240.0)), 3)
         tgt = {"Z": round(draw(st.floats(0.0, 1.0)) * a, 3), "A": a}
+        if draw(st.booleans()):
+            tgt = {"A": tgt["A"], "Z": tgt["Z"]}  # key order as after a YAML round trip
     ob["TargetDIS"] = tgt
     kins = []
     for _ in range(draw(st.integers(1, 3))):
